@@ -166,6 +166,25 @@ Section Facts.
     - exact H.
   Qed.
 
+  (* fix d52fbbc: a stop request leaves the client waiting for a DISCONNECT only if a connection is established *)
+  Lemma stop_request_shape c log now d :
+    cinv c log -> c_stop (handle_op c now (OpStop d)) = SDisc ->
+    c_cur (handle_op c now (OpStop d)) = CConnected /\ tag (handle_op c now (OpStop d)) = TConnected.
+  Proof.
+    intros Hi Hs. pose proof (cinv_handle_op c log now (OpStop d) Hi) as [[T1 T2] _].
+    assert (Ht : tag (handle_op c now (OpStop d)) = TConnected).
+    { revert Hs. unfold tag. cbn [Impl.handle_op].
+      set (c1 := match d with Some pkt => set_eng c (e_disc (c_eng c) now pkt) | None => c end).
+      match goal with |- context [apply_error ?x ?k] => destruct (apply_error_fields x k) as (He & _ & _ & Hst & _) end.
+      cbn [c_stop c_eng set_des]. rewrite Hst, He. cbn [c_stop c_eng set_stop].
+      destruct d as [pkt|]; [|discriminate].
+      destruct (etag_eqb (e_tag (c_eng c1)) TConnected) eqn:Eq; [|discriminate].
+      intros _. apply etag_eqb_eq in Eq. exact Eq. }
+    split; [|exact Ht].
+    destruct (c_cur (handle_op c now (OpStop d))) eqn:Hc; auto;
+      (assert (Hx : tag (handle_op c now (OpStop d)) = TDisconnected) by (apply T2; congruence); congruence).
+  Qed.
+
   (* ---- transition_to_state on the transitions the drivers request ---- *)
   Lemma fact_opened_inv tb ok ta :
     fact_opened tb ok ta = true -> tb = TDisconnected -> ok = true /\ ta = TPendingConnack.
@@ -880,6 +899,17 @@ Section Reach.
     intros s Hrun Hd Hw s'. destruct facts as (H1 & H2 & H3 & H4 & H5 & H6 & H7 & H8).
     destruct (check_stops E e_tag e_opened e_closed H4 H5 thr s now (reach_dinv h) Hrun Hd Hw) as ((Q1 & Q2 & Q3) & _ & X).
     repeat split; auto.
+  Qed.
+
+  Theorem stop_waits_only_when_established h now d :
+    let s := reach h in
+    d_status s = Running ->
+    let c' := handle_op E U D e_tag e_user e_disc e_reset (d_c s) now (OpStop d) in
+    c_stop c' = SDisc -> c_cur c' = CConnected /\ e_tag (c_eng c') = TConnected.
+  Proof.
+    intros s Hrun c' Hs. destruct facts as (H1 & H2 & H3 & H4 & H5 & H6 & H7 & H8).
+    destruct (reach_dinv h) as (_ & _ & Hr). destruct (Hr Hrun) as [Hc _].
+    exact (stop_request_shape E U D e_tag e_user e_disc e_reset H1 H2 H3 (d_c s) (d_log s) now d Hc Hs).
   Qed.
 
   Theorem restartable_reach h now :
